@@ -302,6 +302,7 @@ Property make() {
            "stop points (graceful post_run or kill after the last periodic restart; first/last step, on/off the restart schedule) each followed by a "
            "fresh instance loading the state from the simulated disk; non-trivial = at least one resume executed; distinct = hash of (scenario "
            "template, stop/resume kind sequence, state format, force convention)";
+  p.rule += " Later additions: 40% of the variables whose total force is read have subtractAppliedForce; scenarios with a fictitious coordinate are compared at 1e-6 for five steps after the first resume only.";
   p.assumptions = {"engine-side checkpoint is perfect (kinematic positions are a pure function of the step)",
                    "comparison tolerance rtol 2e-9 after a text state (14 significant digits); bitwise before the first stop",
                    "quantities at the repeated step itself are not compared"};
